@@ -707,6 +707,7 @@ func reinitialize(execCtx *rapidContext) {
 	execCtx.appCtx.Delete(appctx.AppCtxFirstFatalErrorKey)
 	execCtx.renderingService.SetRenderer(nil)
 	execCtx.initDone = false
+	execCtx.invokeRuntimeDoneSent = true // as after Start: no invocation has started, a reset now owes no runtime-done
 	execCtx.registrationService.Clear()
 	execCtx.initFlow.Clear()
 	execCtx.invokeFlow.Clear()
